@@ -20,42 +20,54 @@ CLAIMS = {
  'C04': ("Whole-step proof over every instruction word: PC advances by the instruction length when no branch is taken (part of the "
          "leaf-wise functional obligation of every specified encoding and of the failed-condition clause), R15 reads as +8/+4 (contract "
          "of Registers.get proved against its body), final PC alignment for the final instruction set on every path, and the branch "
-         "encodings B/BL/BLX/BX/BXJ/CBZ (ARM and Thumb) equal the architectural offsets, link values and interworking. TBB/TBH and "
-         "loads to PC are covered by safety obligations only so far.", "DESIGN.md 10 C04, 14.2"),
+         "encodings B/BL/BLX/BX/BXJ/CBZ/TBB/TBH (ARM and Thumb) equal the architectural offsets, link values and interworking; for every "
+         "specified encoding (loads to PC, ALU writes to PC, exception returns included) the final PC and instruction set are an obligation "
+         "of their own (post.pc). Known finding: CBZ offset x4 (pinned by a test).", "DESIGN.md 10 C04, 14.2"),
  'C05': ("current_cond/condition_passed proved equal to CurrentCond()/ConditionPassed() for all opcode words, lengths, ITSTATE and NZCV "
          "(16x16 table decided by the solver); and for every instruction word of both instruction sets the whole-step obligation "
          "safe.noop: when the architectural condition fails nothing changes except PC (+length) and ITSTATE (advance).", "DESIGN.md 10 C05"),
  'C08': ("it_advance/in_it_block/last_in_it_block proved against ITAdvance/InITBlock/LastInITBlock for all 256 states; the IT "
          "sequencing lemma (conditions seen by the next 1-4 instructions, LastInITBlock, empty afterwards) decided exhaustively by the "
-         "solver for all legal (firstcond, mask); once-per-instruction advance and exception save/clear come from the step units and C11.",
+         "solver for all legal (firstcond, mask); the IT instruction itself, the once-per-instruction advance (post.it: ITSTATE after every "
+         "Thumb instruction, flags of 16-bit instructions inside a block; no advance after an exception return), current_cond/condition_passed "
+         "(C05 units) and the exception-entry units (IT saved in the SPSR and cleared) are part of this check.",
          "DESIGN.md 10 C08"),
  'C10': ("Every Registers accessor (banked get/set by current and explicit mode, SPSR selection, branch_to, mode predicates) proved "
          "against the single banking table (single-register frames), for all register numbers, modes, values and configurations; range "
          "invariant: value-range preconditions of every register writer at every call site of every instruction path plus the "
-         "final-state range check, for every instruction word.", "DESIGN.md 10 C10"),
+         "final-state range check, for every instruction word; post.banks: register copies and SPSRs the executing mode does not see "
+         "change exactly as the instruction's specification says (accesses by explicit mode: SRS, LDM/STM user, banked MRS/MSR, RFE).", "DESIGN.md 10 C10"),
  'C11': ("All eleven exception-entry functions (undef, svc, smc, data abort, irq, fiq, hyp trap, enter_hyp/monitor_mode, "
          "exc_vector_base, take_reset) proved equal leaf-by-leaf to the B1.8/B1.9 pseudocode for every source mode, T/J/IT/AIF, "
-         "SCTLR/SCR/HCR routing bits, extension configuration and PC.", "DESIGN.md 10 C11"),
+         "SCTLR/SCR/HCR routing bits, extension configuration and PC; SVC and SMC at step level: the exception the instruction generates in "
+         "each state (SMC: UNDEFINED / Hyp trap under HCR.TSC / Monitor call) and the state afterwards == the entry from the initial state; "
+         "steps that start with CPSR.J = 1 take the Undefined Instruction entry.", "DESIGN.md 10 C11"),
  'C12': ("cpsr_write_by_instr / spsr_write_by_instr proved equal to CPSRWriteByInstr / SPSRWriteByInstr (per-bit mask formulation) for all "
          "values, byte masks, modes, security state, NMFI, SCR.AW/FW and configurations; MRS, MSR (register/immediate, application and "
          "system), CPS, SETEND, SUBS PC,LR (ARM A1/A2, Thumb), ERET, LDM (exception return), RFE, NOP/WFE/WFI by step-level functional "
          "rows for every instruction word and state (User-mode UNKNOWN bits masked); the entry-then-return round trip (SVC, Undefined, "
          "IRQ, FIQ, Data Abort from ARM and Thumb state, handler in ARM or Thumb) as a lemma over the two verified contracts. "
-         "Coproc_Accepted() for the generic coprocessors (NSACR/CPACR by privilege and security state, no Virtualization Extensions) as a "
-         "function-level unit; cp14/cp15 gating, SMC/SVC routing and the mock hint hooks have safety obligations only. Known finding: MRS CPSR in "
+         "Coproc_Accepted() for the generic coprocessors (NSACR/CPACR by privilege and security state, HCPTR traps with the Virtualization "
+         "Extensions) as a function-level unit, and at step level the coprocessor transfer hooks are reached only through it (post.gate); "
+         "SVC/SMC outcome and entry, hints and barriers (mock hook reached only when the condition passes, state untouched), UDF, IT, "
+         "ENTERX/LEAVEX by step-level rows; the exception-entry units (C11) belong to this check. cp14/cp15 register-level gating is NOT covered. Known finding: MRS CPSR in "
          "privileged modes returns only the APSR bits (pinned by a test).", "DESIGN.md 10 C12, 14.12"),
  'C13': ("mem_a_with_priv_get/set, mem_u_with_priv_get/set, the six wrappers (sizes 1,2,4,8) and fetch_instruction interpreted over an "
          "abstract translation (any PA, any fault pattern) and an abstract physical hub: per path the exact sequence of translations and "
          "hub accesses with address, size, privilege, direction and data, the returned value with CPSR.E reversal, alignment policy by "
          "architecture version / SCTLR.A,U / HSCTLR.A, byte-wise unaligned accesses wrapping modulo 2^32, little-endian fetch with the "
          "second halfword fetched iff hw1<15:11> in {11101,11110,11111}, and the frame; store-then-load follows with C16's byte-level "
-         "contract and the involution of the byte reversal (C17).", "DESIGN.md 10 C13"),
+         "contract and the involution of the byte reversal (C17). The load/store rows of the step units (legacy rotated LDR result, "
+         "UNKNOWN data of unaligned Thumb accesses, access kind and privilege of every instruction access) and the translate_address "
+         "dispatch belong to this check as well.", "DESIGN.md 10 C13"),
  'C14': ("translate_address_p with check_permission, data_abort (PMSA), encode_pmsafsr, default_tex_decode and "
          "default_memory_attributes interpreted from source against the B5 pseudocode for every MPU programming (all DRSR/DRBAR/DRACR "
          "values, DRegion, SCTLR.M/BR/AFE/C/V), address, direction, privilege: region priority (last hit), size/base match, subregion "
          "disable, AP table, background rule, DFSR.FS/WnR + DFAR on abort, memory type/attributes, frame. Unbounded in the number of "
          "regions: loop head, inductive step for an arbitrary region and arbitrary accumulators, and the code after the loop for an "
-         "arbitrary scan result; unrolled N<=2 instances cross-check the cut points. LR_abt/SPSR_abt of the abort entry are C11.",
+         "arbitrary scan result; unrolled N<=2 instances cross-check the cut points. No write-back / no transfer on an aborting access: "
+         "post.abort of the single load/store rows and inv.abort of the block-transfer units (any position incl. the PC slot); the accessor "
+         "units (direction/privilege handed to the translation) belong to this check. LR_abt/SPSR_abt of the abort entry are C11.",
          "DESIGN.md 10 C14, 14"),
  'C15': ("translate_address_v with FCSE translation interpreted from the real source over an abstract physical memory (arbitrary table "
          "contents) against the B3.19 pseudocode, two units: (1) Short-descriptor walk (TTBR0/TTBR1 split by TTBCR.N, PD0/PD1, sections, "
@@ -69,7 +81,8 @@ CLAIMS = {
  'C16': ("MemoryControllerHub.__getitem__/__setitem__ with MemoryController/RAM/to_int/from_int inlined, over controller lists of "
          "length 0..3 (thorough 0..5) with symbolic bounds, sizes and contents and an arbitrary 40-bit address: little-endian value of "
          "exactly the addressed bytes, every other byte of every device unchanged (extensional at an arbitrary probe index), unmapped "
-         "reads 0, len(memory_array)==size==end-beginning preserved, no host error incl. accesses crossing the end of a device.",
+         "reads 0, len(memory_array)==size==end-beginning preserved, no host error incl. accesses crossing the end of a device; add_memory / "
+         "from_memory_list establish that representation (appended in order, zero-filled store of end-beginning bytes).",
          "DESIGN.md 10 C16"),
  'C17': ("Every function of bits_ops.py and shift.py, the AbstractRegister bit/slice accessors and every named field (getter and "
          "setter) of all register classes verified, body against contract, for all operand values (widths 1-8,16,32,64 quick / 1..64 "
@@ -77,16 +90,19 @@ CLAIMS = {
  'C18': ("Whole-step proof: for every 16-bit Thumb, 32-bit Thumb and ARM instruction word (cube-partitioned, all other bits symbolic), "
          "every ValidState, mode and configuration, emulate_cycle returns, takes an architectural exception, or raises "
          "NotImplementedError; every potential host error (attribute/type/index/key/assertion/unbound-local/struct/value/zero-division) "
-         "is an explicit path that must be infeasible, UNPREDICTABLE paths included.", "DESIGN.md 10 C18"),
+         "is an explicit path that must be infeasible, UNPREDICTABLE paths included; the same for the memory path below the accessor contracts "
+         "(accessors, fetch, translation PMSA/VMSA, hub) and for steps starting with CPSR.J = 1.", "DESIGN.md 10 C18"),
  'C19': ("Whole-step proof for every instruction word with CPSR.M = User: afterwards still User with A/I/F, all other modes' banked "
-         "registers and SPSRs and every system register unchanged, or an architectural exception was entered with SPSR.M = User.",
+         "registers and SPSRs and every system register unchanged, or an architectural exception was entered with SPSR.M = User; last clause: "
+         "the unprivileged load/store rows (LDRT..STRHT) functionally, the privilege of every translation request of the accessors "
+         "(post.priv), frames of the memory path, coprocessor gating (post.gate, Coproc_Accepted unit).",
          "DESIGN.md 10 C19"),
  'C02': ("Every single-register load/store encoding in the table (about 170: LDR/STR/LDRB/STRB/LDRH/STRH/LDRSB/LDRSH/LDRD/STRD, immediate, "
          "literal, register and unprivileged forms, ARM A1/A2 and Thumb T1-T4) proved equal, leaf by leaf over the whole machine state and "
          "the abstract memory (address, size, access kind, privilege, data of every access; write-back; loads to PC with interworking; "
          "frame), to the ARM ARM decode+operation pseudocode for all instruction words of the class and all operand values with "
          "wrap-around modulo 2^32; plus the abort clause (no register loaded or written back; LDRD destinations UNKNOWN). LDREX/STREX{,B,H,D} functionally with the "
-         "monitors' answers as oracles of the unit (the monitor state is outside the machine state); PLD has decode-only rows.", "DESIGN.md 10 C02, 14"),
+         "monitors' answers as oracles of the unit (the monitor state is outside the machine state); PLD: hint rows (no state change).", "DESIGN.md 10 C02, 14"),
  'C03': ("LDM/STM in four addressing modes, PUSH/POP, LDM/STM (user registers), LDM (exception return): the execute() of each of the 15 "
          "abstract classes verified with its register loop cut (head: start address and ascending order; inductive step for an arbitrary "
          "register index, address, memory and register file; tail: PC slot, write-back, UNKNOWN cases, exception return), so for all 2^16 "
@@ -100,9 +116,9 @@ CLAIMS = {
          "extraction through the functional equality (post / decode.fields) and UNDEFINED rows never execute (post.unpred); decode "
          "reads nothing but the word, ITSTATE and C (frame.own + the spec's own dependence). The table holds a row for every one of the 602 concrete "
          "classes (data-processing, branches, load/store single, dual, multiple, unprivileged, multiply/SIMD/saturating/bit-field, "
-         "MRS/MSR/CPS/SETEND/exception return/hints, TBB/TBH functionally; exclusives functionally; SVC/SMC/UDF/BKPT/IT/barriers/PLD as decode-only "
-         "rows; coprocessor CDP/MCR/MRC/MCRR/MRRC/LDC/STC, Thumb PLD and ENTERX/LEAVEX likewise decode-only). Decode-only classes "
-         "are covered by the spec-free obligations only.", "DESIGN.md 14.8"),
+         "MRS/MSR/CPS/SETEND/exception return/hints/barriers/PLD/IT/UDF/BKPT/ENTERX, TBB/TBH, exclusives functionally; SVC/SMC by outcome + entry; "
+         "coprocessor CDP/MCR/MRC/MCRR/MRRC/LDC/STC decode-only + gating). A word decoded to a class it is no encoding of, or rejected "
+         "although valid, also counts for the functional family of the class it belongs to.", "DESIGN.md 14.8"),
  'C07': ("As C06 for Thumb: 58 16-bit cubes (bits 15:10) and 192 32-bit cubes (bits 31:21), inside and outside IT blocks (ITSTATE "
          "symbolic); 32-bit detection by hw1<15:11> is part of the fetch contract proved in C13.", "DESIGN.md 14.8"),
  'C09': ("All multiply/divide (MUL, MLA, MLS, long, halfword, dual, most-significant-word, SDIV/UDIV), saturating (QADD.., SSAT/USAT, "
@@ -116,7 +132,9 @@ CLAIMS = {
          "configuration and immutable program constants (engine-tracked accesses to host objects outside the symbolic machine: "
          "frame.own), and the interpreted subset is deterministic, so a step is a function of (configuration, state, memory) and steps "
          "of instances that share no object commute; per-step scratch fields are leaves of the machine and are covered by the "
-         "functional equalities. Instance creation is a separate unit: ArmV6.__init__ rewrites the module-level configuration singleton "
+         "functional equalities; the memory path below the accessor contracts and the L1/L2 function units carry the same ownership "
+         "obligations; Registers.__init__ with all register constructors builds a register file from the configuration only, without "
+         "shared mutable objects. Instance creation is a separate unit: ArmV6.__init__ rewrites the module-level configuration singleton "
          "(known finding KF-CONFIG-SINGLETON, demonstrated natively with two configuration files).", "DESIGN.md 14.11"),
 }
 NOT_YET = {
